@@ -7,10 +7,14 @@ import subprocess
 import verif as V
 
 PROP = "C15"
-SPEC = "Bng.Spec.C15"
+SPEC = ["Bng.Spec.C15", "Bng.Spec.C15Proc"]
 MON = ["acted-unauthentic", "ignored-authentic", "bad-response"]
+# component coaproc: the real CoAProcessor (coa_handler.go) as the handlers of the real CoAServer, its callbacks a
+# session table kept by the harness (model Bng.CoaProc, theorems Bng.Spec.C15Proc)
+MON_PROC = ["effect-unauthentic", "ignored-authentic", "bad-response", "wrong-target", "ack-mismatch"]
 COMPS = [
     V.Component("coa", monitors=MON),
+    V.Component("coaproc", monitors=MON_PROC),
 ]
 LEVEL = ("acted_iff_authentic, response_verifies and dropped_no_effect are theorems over the Lean model of the CoA "
          "listener's handling of one datagram (receiveLoop body, verifyRequestAuthenticator, parseAttributes, dispatch, "
@@ -19,7 +23,25 @@ LEVEL = ("acted_iff_authentic, response_verifies and dropped_no_effect are theor
          "unmodified receiveLoop over a loopback UDP socket with scripted handlers that record their invocations; the Lean "
          "model (instantiated with an MD5 written in Lean, itself compared with crypto/md5 on every run) must give the same "
          "drop/act decision, the same parsed request fields and the same response bytes, and the monitors judge the real "
-         "code's behaviour with the very predicate (Coa.authentic) the theorems are about.")
+         "code's behaviour with the very predicate (Coa.authentic) the theorems are about. "
+         "Component coaproc puts pkg/radius/coa_handler.go inside the model: CoAProcessor.HandleCoA / HandleDisconnect "
+         "(findSession, findSessionFromDisconnect, buildPolicyUpdate, applyPolicyUpdate, terminateSession, the Reply-Message "
+         "texts) as the handlers of that listener, their callbacks a session table with fault switches (model Bng.CoaProc, "
+         "step = receive . parseFields . process . respond). Spec.C15Proc proves for ALL datagrams, tables, fault settings, "
+         "callback configurations, secrets and every 16-byte hash: an unauthentic datagram invokes no callback, changes nothing "
+         "and is not answered (unauthentic_no_effect, effect_iff_authentic); an authentic one gets exactly one response, which "
+         "verifies (authentic_one_response); Disconnect-ACK iff the request identifies a session and the terminator succeeded, "
+         "the table afterwards is the table before minus exactly that session, a NAK changes nothing "
+         "(disconnect_ack_iff_terminated, disconnect_removes_exactly_the_identified_session over the invariant "
+         "unique_sids_invariant); CoA-ACK iff a session is identified, a change is requested and the policy updater succeeded, "
+         "the update applied is exactly the requested one and touches no other session (coa_ack_iff_applied, "
+         "callbacks_get_the_requested_update, coa_ack_leaves_other_sessions); every session-changing callback is invoked for "
+         "the session the request identifies, with the code's precedence Acct-Session-Id > Framed-IP > Calling-Station-Id "
+         "(target_identified_by_request). The handler_* theorems state the same for EVERY request a handler can be called "
+         "with (QoS rates and an Acct-Session-Id different from the Session-Id exist only there). Tie: the real CoAProcessor "
+         "behind the real CoAServer on loopback UDP; every lookup / terminator / updater invocation with its arguments and "
+         "outcome, the response bytes and the table are compared op by op with the model, and the monitors (own view of the "
+         "table, the specification's identify / buildPolicyUpdate, never the model's handlers) judge the real code's answers.")
 ASSUME = [
     "the hash has 16-byte digests (true of MD5); no cryptographic property of MD5 is assumed or claimed",
     "one datagram at a time: the listener is a single goroutine, so datagrams are handled sequentially; handler "
@@ -27,6 +49,22 @@ ASSUME = [
     "the model takes cap(buf)=len(datagram); the real loop reads into a 4096-byte buffer and never looks past n "
     "(the guard int(length) > n), datagrams longer than 4096 bytes are truncated by the kernel before the code sees them",
     "layeh.com/radius (used by the RADIUS client, not by the CoA listener) is not modelled",
+    "coaproc: the processor's callbacks are the ENVIRONMENT (nothing in the repository wires CoAProcessor to the session "
+    "manager): a session table kept by the harness, lookups return the first matching session in insertion order, the "
+    "terminator removes by session id, the updaters record what they are given, each fails as a whole when its fault switch "
+    "is on; session ids are unique in the table (theorem unique_sids_invariant); the accounting manager and the audit "
+    "logger are not set (the Accounting-Stop that terminateSession sends before calling the terminator - review item C8 - "
+    "belongs to C08 and is not driven here); callbacks run synchronously in the listener goroutine",
+    "coaproc, recorded behaviour (not C15 violations; stated by the theorems as they are): (1) identification falls back "
+    "- a request whose Acct-Session-Id names no session is served by its Framed-IP-Address, then by its Calling-Station-Id "
+    "(RFC 5176 section 3 would answer 503 unless ALL identification attributes match one session); (2) a callback that is not "
+    "configured is skipped: no terminator => Disconnect-ACK with nothing terminated, no policy updater => CoA-ACK with "
+    "nothing recorded, no lookups => always NAK 503; (3) an error of the eBPF QoS updater is logged and swallowed: CoA-ACK, "
+    "policy rate new, enforced rate old (theorem ebpf_failure_still_acks_witness; bears on C19's `the policy set through the "
+    "control plane is the one enforced`, not on C15) - unreachable from the wire today because parseCoARequest never sets "
+    "QoSDownload/QoSUpload, exercised by calling HandleCoA directly (ops hcoa / hdm)",
+    "coaproc: the Reply-Message texts are modelled exactly (fmt %s of the attribute bytes, %v of net.IP for nil and 4-byte "
+    "values - the only ones the listener's parser produces; the harness's direct calls use the same two shapes)",
 ]
 
 
